@@ -30,6 +30,20 @@ Theorem C16_handlers_once :
 Proof. intros hs0 ts sched H. exact (handlers_once_all_schedules hs0 ts sched H). Qed.
 Print Assumptions C16_handlers_once.
 
+(* the latch of (1) in isolation (Model section M; the repository tests and sets `closed` inside one critical section, which
+   is what section A's DStart step transcribes): ANY number of closers, ANY schedule: the handlers run at most once. *)
+Theorem C16_latch_runs_at_most_once :
+  forall (k : nat) (sched : list nat), m_runs (fst (run _ _ (mstep true) (minit, repeat MCheck k) sched)) <= 1.
+Proof. intros k sched. exact (latch_runs_at_most_once k sched). Qed.
+Print Assumptions C16_latch_runs_at_most_once.
+
+(* check-then-act (an IsClosed() fast path before Lock, no re-test under the lock): two closers both pass the test before
+   either sets the flag, and every clean handler runs twice *)
+Theorem C16_latch_check_then_act_refuted :
+  exists sched, m_runs (fst (run _ _ (mstep false) (minit, [MCheck; MCheck]) sched)) = 2.
+Proof. exact latch_check_then_act_refuted. Qed.
+Print Assumptions C16_latch_check_then_act_refuted.
+
 (* (2) callback_once — client Tunnel.Close (repaired: CAS loop), from Connecting or Connected, any closers with any
    reasons, any concurrent Start calls.  The actions performed (Dispose.Close, both connection closes, peer notification,
    unregister, onClosed) are an initial segment of ONE run of the close body; Closed means one whole body has run; when
